@@ -346,9 +346,9 @@ var registry = []*Workload{
 			b := conv2d.NewBenchmark(d)
 			b.N, b.C, b.H, b.W = def(p, "n", 1), def(p, "c", 1), p["h"], p["w"]
 			b.KernelChannel = def(p, "kc", 3)
-			b.KernelHeight, b.KernelWidth = def(p, "k", 3), def(p, "k", 3)
-			b.PadX, b.PadY = def(p, "pad", 0), def(p, "pad", 0)
-			b.StrideX, b.StrideY = def(p, "stride", 1), def(p, "stride", 1)
+			b.KernelHeight, b.KernelWidth = def(p, "kh", def(p, "k", 3)), def(p, "kw", def(p, "k", 3))
+			b.PadX, b.PadY = def(p, "pad_x", def(p, "pad", 0)), def(p, "pad_y", def(p, "pad", 0))
+			b.StrideX, b.StrideY = def(p, "stride_x", def(p, "stride", 1)), def(p, "stride_y", def(p, "stride", 1))
 			b.EnableBackward = def(p, "backward", 0) != 0
 			b.Arch = a
 			return b
@@ -360,10 +360,10 @@ var registry = []*Workload{
 		New: func(d *driver.Driver, a arch.Type, p map[string]int) benchmarks.Benchmark {
 			b := im2col.NewBenchmark(d)
 			b.N, b.C, b.H, b.W = def(p, "n", 1), def(p, "c", 1), p["h"], p["w"]
-			b.KernelHeight, b.KernelWidth = def(p, "k", 3), def(p, "k", 3)
-			b.PadX, b.PadY = def(p, "pad", 0), def(p, "pad", 0)
-			b.StrideX, b.StrideY = def(p, "stride", 1), def(p, "stride", 1)
-			b.DilateX, b.DilateY = def(p, "dilate", 1), def(p, "dilate", 1)
+			b.KernelHeight, b.KernelWidth = def(p, "kh", def(p, "k", 3)), def(p, "kw", def(p, "k", 3))
+			b.PadX, b.PadY = def(p, "pad_x", def(p, "pad", 0)), def(p, "pad_y", def(p, "pad", 0))
+			b.StrideX, b.StrideY = def(p, "stride_x", def(p, "stride", 1)), def(p, "stride_y", def(p, "stride", 1))
+			b.DilateX, b.DilateY = def(p, "dilate_x", def(p, "dilate", 1)), def(p, "dilate_y", def(p, "dilate", 1))
 			b.Arch = a
 			return b
 		},
